@@ -107,6 +107,18 @@ CHECKS = {
          "block-by-block fresh assembly.",
          "Trusted: format decoders in pyprops/formats.py. Input file name held constant (ELF embeds it).",
          "DESIGN.md 3/C13"),
+ "C18": ("hypothesis+nvserve",
+         "Hypothesis structured programs; generic .lst parser checked against the hex output and an own disassembly of the output image",
+         "Generated-input search: structured programs (multi-word instructions, data between code, .org segments, "
+         "macros, includes with .list) for 43 CPUs with an instruction corpus are assembled by the sanitized CLI with "
+         "-l; the .lst is parsed without per-CPU tables and every instruction line must carry the disassembly (own "
+         "decoder call on the OUTPUT image) of exactly the bytes it shows, in a standard grouping; all output bytes "
+         "must appear on an instruction line or in the data-section dump with their values; symbol table and Low/High "
+         "summary must match.",
+         "Any standard grouping/byte order of the instruction's bytes is accepted (no dialect table). Lines whose "
+         "decoder length/text is unusable are counted and left to C08; decoders whose text depends on following bytes "
+         "are compared with a zero tail as well (counted). .repeat is not generated (not in the property's quantifier).",
+         "DESIGN.md 3/C18"),
 }
 
 NOT_YET = "check not built yet (work in progress; see DESIGN.md section 3)"
